@@ -71,6 +71,23 @@ Theorem C01_function_table : forall f,
 Proof. intros f; split; [apply fn_arities_table | apply fn_not_loop]. Qed.
 Print Assumptions C01_function_table.
 
+(* ... and the converse: the table regenerated from soyhtml.Funcs on this run holds NO other name.  Every
+   name the interpreter can call (func_arities name = Some ar) is a function of the Spec (fn_of_name finds
+   it) with the Spec's arities, and on every argument list apply_func behaves as that function's Spec.
+   A function added to soyhtml.Funcs without a Spec in Spec/Expr.v, or a changed arity, breaks the
+   finite computation behind this theorem (EvalFuncProofs.html_funcs_specified). *)
+Theorem C01_function_table_complete : forall name ar args,
+  func_arities name = Some ar ->
+  exists f, fn_of_name name = Some f /\ fn_name f = name /\ ar = map N.of_nat (fn_arities f) /\
+            orel (r <- apply_fn_spec f args ;; Ok (fres_of r)) (apply_func name args).
+Proof. exact function_table_spec. Qed.
+Print Assumptions C01_function_table_complete.
+
+Example C01_function_table_nonvacuous :
+  func_arities (b "range") = Some [1; 2; 3] /\ fn_of_name (b "range") = Some FRange /\ fn_of_name (b "index") = None /\
+  length html_funcs = length all_fns.
+Proof. vm_compute. repeat split; reflexivity. Qed.
+
 (* ---- syntax (cited) and the composition ---- *)
 
 (* precedence and associativity with minimal and redundant parentheses: for every well-formed tree
